@@ -1,6 +1,8 @@
 """C19 — every macro the parser accepts has its specified Michelson meaning."""
 import itertools
 
+import json
+
 from hypothesis import strategies as st
 
 from vlib import gen_types as gt
@@ -12,7 +14,8 @@ PID = "C19"
 RULE = ("macro names are ENUMERATED: CMPop / IFop / IFCMPop / ASSERT_op / ASSERT_CMPop (6 each), FAIL, ASSERT, ASSERT_NONE/"
         "SOME/LEFT/RIGHT, IF_SOME, IF_RIGHT, DI{2..6}P, DU{2..6}P (thorough ..9), every P[PAI]+R tree with 3..6 leaves "
         "(thorough ..8) and its UNP..R, every C[AD]{2..5}R / SET_C[AD]{1..5}R / MAP_C[AD]{1..5}R path (thorough ..6), each "
-        "without and with field/variable annotations; for every name hypothesis draws stacks of matching shape (leaves of "
+        "without and with field/variable annotations; for every name hypothesis draws stacks of matching shape (a quarter of the leaves under "
+        "PAIR / UNPAIR trees are tickets, which no expansion may copy; leaves of "
         "types int nat string bool pair option, values near each other for comparisons, 0..2 untouched items below). "
         "The macro TEXT is parsed by michelson_to_micheline and executed. Oracle: the macro's meaning implemented "
         "directly on reference values (tree build/unbuild, path get/set/map, compare-and-test, branch selection, failure "
@@ -24,6 +27,60 @@ OPS = {"EQ": lambda c: c == 0, "NEQ": lambda c: c != 0, "LT": lambda c: c < 0, "
 T = rv.T
 STR, INT, BOOL, UNIT = T("string"), T("int"), T("bool"), T("unit")
 LEAF_TYPES = [INT, T("nat"), STR, BOOL, T("pair", INT, STR), T("option", INT)]
+
+
+TICKET_T = T("ticket", STR)
+_SELF = []
+
+
+def _self_address():
+    """ticketer of tickets created in a fresh interpreter context (asked from pytezos once; not part of the property)"""
+    if not _SELF:
+        stk, out, err = interp.run([{"prim": "SELF_ADDRESS"}])
+        _SELF.append(rv.from_micheline(T("address"), interp.read_item(stk.items[0])[1]))
+    return _SELF[0]
+
+
+def has_ticket(t):
+    return rv.contains_type(t, {"ticket"})
+
+
+def enc(t, v):
+    """JSON form of a reference value that may hold tickets (pairs of ticket-free values and tickets only)"""
+    if not has_ticket(t):
+        return rv.to_micheline(t, v)
+    if t["prim"] == "ticket":
+        return {"ticket": [v[2], v[3]]}
+    a = rv.targs(t)
+    return {"prim": "Pair", "args": [enc(a[0], v[0]), enc(a[1], v[1])]}
+
+
+def dec(t, m):
+    if not has_ticket(t):
+        return rv.from_micheline(t, m)
+    if t["prim"] == "ticket":
+        return ("ticket", _self_address(), m["ticket"][0], m["ticket"][1])
+    a = rv.targs(t)
+    return (dec(a[0], m["args"][0]), dec(a[1], m["args"][1]))
+
+
+def build_code(t, m):
+    """instructions that leave the value `m` (enc form) of type t on top of the stack"""
+    if not has_ticket(t):
+        return [interp.push(t, m)]
+    if t["prim"] == "ticket":
+        return [interp.push(T("nat"), {"int": str(m["ticket"][1])}), interp.push(STR, {"string": m["ticket"][0]}), {"prim": "TICKET"},
+                {"prim": "IF_NONE", "args": [[{"prim": "UNIT"}, {"prim": "FAILWITH"}], []]}]
+    a = rv.targs(t)
+    return build_code(a[1], m["args"][1]) + build_code(a[0], m["args"][0]) + [{"prim": "PAIR"}]
+
+
+def canon(t, v):
+    """comparison form of a (type, reference value): ticket-bearing values are compared as optimized Micheline"""
+    if has_ticket(t):
+        from vlib import ref_interp as ri
+        return (t, ("micheline", json.dumps(ri.value_to_micheline(t, v, "optimized"), sort_keys=True)))
+    return (t, v)
 
 
 # ---- pair trees ------------------------------------------------------------------------------------------------------
@@ -114,7 +171,7 @@ class Fail(Exception):
 def reference(case):
     """-> list of (type, value) top first; raises Fail for `Unit; FAILWITH`."""
     k = case["kind"]
-    s = [(i["t"], rv.from_micheline(i["t"], i["v"])) for i in case["stack"]]
+    s = [(i["t"], dec(i["t"], i["v"])) for i in case["stack"]]
     if k == "CMP":
         (ta, a), (tb, b) = s[0], s[1]
         return [(BOOL, OPS[case["op"]](rv.compare(ta, a, b)))] + s[2:]
@@ -200,7 +257,7 @@ def execute(case):
         code = parse("{ %s }" % case["text"])
     except Exception as e:
         raise Violation("the parser rejects the macro %r: %r" % (case["text"], e), case, "parse:" + case["kind"])
-    prelude = [interp.push(i["t"], i["v"]) for i in reversed(case["stack"])]
+    prelude = [ins for i in reversed(case["stack"]) for ins in build_code(i["t"], i["v"])]
     stk, out, err = interp.run(prelude + (code if isinstance(code, list) else [code]))
     if err is not None:
         if len(err.args) >= 2 and err.args[-2] == "FAILWITH":
@@ -209,13 +266,16 @@ def execute(case):
     res = []
     for item in stk.items:
         t, m = interp.read_item(item)
-        res.append((t, interp.parse_output(t, m, "result of %s" % case["text"])))
+        if has_ticket(t):
+            res.append((t, ("micheline", json.dumps(m, sort_keys=True))))
+        else:
+            res.append((t, interp.parse_output(t, m, "result of %s" % case["text"])))
     return ("ok", res)
 
 
 def oracle(case):
     try:
-        want = ("ok", reference(case))
+        want = ("ok", [canon(t, v) for t, v in reference(case)])
     except Fail:
         want = ("fail", "Unit")
     got = execute(case)
@@ -235,9 +295,9 @@ def oracle(case):
         raise Violation("%s on stack %s gives %s, its Michelson meaning gives %s" % (
             case["text"], _show(case["stack"]), _brief(got), _brief(want)), case, "result:" + case["kind"])
     if case["kind"] == "PAIR":  # the matching UNP..R macro undoes it
-        back = dict(case, text="%s ; UN%s" % (case["text"], name), stack=case["stack"])
+        back = dict(case, text="%s ; UN%s%s" % (case["text"], name, case.get("undo_annots", "")), stack=case["stack"])
         got2 = execute(back)
-        orig = [(i["t"], rv.from_micheline(i["t"], i["v"])) for i in case["stack"]]
+        orig = [canon(i["t"], dec(i["t"], i["v"])) for i in case["stack"]]
         if got2 != ("ok", orig):
             raise Violation("UN%s does not undo %s: stack %s became %s" % (name, name, _show(case["stack"]), _brief(got2)), case,
                             "unpair-does-not-undo")
@@ -250,7 +310,7 @@ def _show(stack):
 
 def _brief(r):
     if r[0] == "ok":
-        return "[" + " : ".join(str(rv.to_micheline(t, v)) for t, v in r[1]) + "]"
+        return "[" + " : ".join(v[1] if isinstance(v, tuple) and v[:1] == ("micheline",) else str(rv.to_micheline(t, v)) for t, v in r[1]) + "]"
     return "%s %r" % r
 
 
@@ -268,7 +328,13 @@ def _below():
 
 
 def _item(t, v):
-    return {"t": t, "v": rv.to_micheline(t, v)}
+    return {"t": t, "v": enc(t, v)}
+
+
+def _leaf_t():
+    """a leaf that is sometimes a ticket (not duplicable: only macros whose meaning never copies may see it)"""
+    tk = st.tuples(st.sampled_from(["a", "b", ""]), st.integers(1, 9)).map(lambda ca: (TICKET_T, ("ticket", _self_address(), ca[0], ca[1])))
+    return st.one_of(_leaf(), _leaf(), _leaf(), tk)
 
 
 @st.composite
@@ -285,7 +351,7 @@ def _path_value(draw, path):
 @st.composite
 def _tree_value(draw, tree):
     if tree is None:
-        return draw(_leaf())
+        return draw(_leaf_t())
     l, r = draw(_tree_value(tree[0])), draw(_tree_value(tree[1]))
     return T("pair", l[0], r[0]), (l[1], r[1])
 
@@ -346,14 +412,17 @@ def spec_strategy(spec):
                 annots = ["@v"]
         elif k == "PAIR":
             tree = tree_from_json(spec["tree"])
-            stack = [draw(_leaf()) for _ in range(tree_size(tree))]
+            stack = [draw(_leaf_t()) for _ in range(tree_size(tree))]
             if ann:
                 annots = ["%%f%d" % i for i in range(tree_size(tree))] + (["@v"] if draw(st.booleans()) else [])
+            if draw(st.booleans()):  # the undoing UNP..R macro carries annotations of its own
+                case["undo_annots"] = "".join(" %s%d" % (draw(st.sampled_from(["%g", "@w"])), i) for i in range(tree_size(tree)))
         elif k == "UNPAIR":
             tree = tree_from_json(spec["tree"])
             stack = [draw(_tree_value(tree))]
             if ann:
-                annots = ["@v%d" % i for i in range(tree_size(tree))]
+                sig = draw(st.sampled_from(["@v", "%f", "%f"]))
+                annots = ["%s%d" % (sig, i) for i in range(tree_size(tree))]
         elif k == "CXR":
             stack = [draw(_path_value(spec["path"]))]
             if ann:
